@@ -133,7 +133,8 @@ def run_job(job):
     rng = random.Random(job['seed'])
     fast = job['fast']
     spec = specgen.random_session(rng, minutes=rng.choice([240, 360, 480]), fast=fast, tfs=['1m', '3m', '5m', '15m'],
-                                  data_tfs=['3m', '5m', '15m', '30m', '1h'], data_only=(job['i'] % 3 == 1))
+                                  data_tfs=['3m', '5m', '15m', '30m', '1h'], data_only=(job['i'] % 3 == 1),
+                                  nsym=2 if job['i'] % 9 == 5 else None)
     if job['i'] % 3 == 1:
         cnt0 = {'sessions_with_data_only_symbol': 1}
     else:
